@@ -180,6 +180,14 @@ def scenarios(tier, seed):
                     if tier == "quick" and fm == "all" and o is not s:
                         continue
                     scs.append(Code(o, lang, fm))
+    if tier != "quick":
+        for g in M.grammar_shapes(with_surrogates=False):
+            if "/u" in g["name"]:
+                continue  # variables without reactions: open finding, probed by its minimal scenario
+            if "/rev" in g["name"] and len(g.get("derived", [])) >= 2:
+                continue  # derived quantities declared out of dependency order: open finding
+            for lang in ("py", "ts", "rs"):
+                scs.append(Code(g, lang, "none"))
     for name, spec in MINIMAL.items():
         for lang in (("py",) if name == "single_variable" else ("py", "ts", "rs")):
             scs.append(Code(spec, lang, "none"))
